@@ -3,15 +3,182 @@ import TornadoModel.C45.Lemmas
 namespace TornadoModel.C45
 open Spec
 
-/-- **Total**: for every record of the model — whatever `getMessage()` did, including raising — `format`
-    returns a string (no branch of the method lets an exception out). -/
-theorem format_total (colorOn : Bool) (r : Record) : ∃ s, format colorOn r = .ok s := ⟨_, rfl⟩
+/-! ### totality: which calls may raise, and what `format` does about it -/
 
-/-- when `getMessage()` raises, the entry carries the "Bad message" text instead of failing -/
-theorem format_bad_message_caught (colorOn : Bool) (r : Record) (e : Str) (h : r.msg = .raised e) :
-    message r = lit "Bad message (" ++ e ++ lit "): " ++ r.dictRepr
+/-- the exception (if any) is an `Exception`, i.e. something `except Exception` is meant to catch -/
+def Outcome.benign : Outcome → Bool
+  | .ok _ => true
+  | .raised e => e.isExc
+
+/-- every exception raised by the user code behind this record (`__str__`/`__repr__`/`__mod__` of the message and
+    its arguments, `__repr__` of the raised exception) is an `Exception` — no `KeyboardInterrupt`, `SystemExit`
+    or other bare `BaseException`, which `except Exception` lets through by design -/
+def Record.benign (r : Record) : Bool :=
+  (match r.msg with
+   | .raised e o => e.isExc && o.benign
+   | _ => true) && r.dictRepr.benign
+
+/-- what `_safe_repr` returns (when it returns) -/
+def safeReprText (o : Outcome) (typeName : Str) : Str :=
+  match o with
+  | .ok s => s
+  | .raised _ => lit "<unprintable " ++ typeName ++ lit " object>"
+
+@[simp] theorem safeRepr_ok (s t : Str) : safeRepr (.ok s) t = .ok s := rfl
+
+theorem safeRepr_benign (o : Outcome) (t : Str) (h : o.benign = true) : safeRepr o t = .ok (safeReprText o t) := by
+  cases o with
+  | ok s => rfl
+  | raised e =>
+    have he : e.isExc = true := h
+    simp [safeRepr, tryExcept, Outcome.call, safeReprText, he]
+
+/-- `_safe_repr` lets out only what is not an `Exception` -/
+theorem safeRepr_error (o : Outcome) (t : Str) (e : Exc) (h : safeRepr o t = .error e) :
+    o = .raised e ∧ e.isExc = false := by
+  cases o with
+  | ok s => simp [safeRepr, tryExcept, Outcome.call] at h
+  | raised e' =>
+    cases hb : e'.isExc <;> simp [safeRepr, tryExcept, Outcome.call, hb] at h
+    subst h; exact ⟨rfl, hb⟩
+
+/-- the value of `record.message` for a benign record, branch by branch -/
+theorem message_benign (r : Record) (h : r.benign = true) :
+    message r = .ok (match r.msg with
+      | .ok s => s
+      | .notStr => badMessage (lit "AssertionError()") (safeReprText r.dictRepr (lit "dict"))
+      | .raised e o => badMessage (safeReprText o e.name) (safeReprText r.dictRepr (lit "dict"))) := by
+  simp only [Record.benign, Bool.and_eq_true] at h
+  obtain ⟨hm, hd⟩ := h
+  cases hmsg : r.msg with
+  | ok s => simp [message, getMessageChecked, hmsg, tryExcept]
+  | notStr =>
+    simp [message, getMessageChecked, hmsg, tryExcept, assertionError, excRepr, safeRepr_benign _ _ hd,
+      bind, Except.bind, pure, Except.pure]
+  | raised e o =>
+    rw [hmsg] at hm
+    simp only [Bool.and_eq_true] at hm
+    simp [message, getMessageChecked, hmsg, tryExcept, hm.1, excRepr, safeRepr_benign _ _ hd,
+      safeRepr_benign _ _ hm.2, bind, Except.bind, pure, Except.pure]
+
+theorem format_ok_iff (colorOn : Bool) (r : Record) (s : Str) :
+    format colorOn r = .ok s ↔ ∃ m, message r = .ok m ∧ s = replaceNl (assembled colorOn r m) := by
+  unfold format
+  cases hm : message r with
+  | error e => simp [bind, Except.bind]
+  | ok m => simp [bind, Except.bind, pure, Except.pure, eq_comm]
+
+/-- **Total**: for every record whose user code raises only `Exception`s — whatever `getMessage()` did (returned a
+    `str`, returned `bytes`, raised), and whatever the `repr` of the raised exception and of `record.__dict__` did
+    (returned, or raised because an argument's `__repr__` raises) — `format` returns a string.  The proof goes
+    through each raising call of the method: the `try` catches the first, `_safe_repr` the other two. -/
+theorem format_total (colorOn : Bool) (r : Record) (h : r.benign = true) : ∃ s, format colorOn r = .ok s := by
+  refine ⟨_, (format_ok_iff colorOn r _).2 ⟨_, message_benign r h, rfl⟩⟩
+
+/-- unconditionally: the only thing `format` lets out is a non-`Exception` raised by user code (one of the three
+    raising inputs), so the hypothesis of `format_total` is exactly what is needed -/
+theorem format_escapes_only_non_exception (colorOn : Bool) (r : Record) (e : Exc)
+    (h : format colorOn r = .error e) :
+    e.isExc = false ∧ ((∃ o, r.msg = .raised e o) ∨ (∃ e', r.msg = .raised e' (.raised e)) ∨ r.dictRepr = .raised e) := by
+  unfold format at h
+  cases hm : message r with
+  | ok m => simp [hm, bind, Except.bind, pure, Except.pure] at h
+  | error e0 =>
+    have he : e0 = e := by simpa [hm, bind, Except.bind] using h
+    subst he
+    unfold message tryExcept at hm
+    cases hg : getMessageChecked r with
+    | ok a => simp [hg] at hm
+    | error eg =>
+      simp only [hg] at hm
+      cases hb : eg.isExc with
+      | false =>
+        simp [hb] at hm
+        subst hm
+        refine ⟨hb, Or.inl ?_⟩
+        cases hmsg : r.msg with
+        | ok s => simp [getMessageChecked, hmsg] at hg
+        | notStr =>
+          simp [getMessageChecked, hmsg] at hg
+          subst hg; simp [assertionError] at hb
+        | raised e1 o =>
+          simp [getMessageChecked, hmsg] at hg
+          subst hg; exact ⟨o, rfl⟩
+      | true =>
+        simp only [hb, if_true] at hm
+        cases ha : safeRepr (excRepr r) eg.name with
+        | error ea =>
+          have : ea = e0 := by simpa [ha, bind, Except.bind] using hm
+          subst this
+          obtain ⟨h1, h2⟩ := safeRepr_error _ _ _ ha
+          refine ⟨h2, Or.inr (Or.inl ?_)⟩
+          cases hmsg : r.msg with
+          | ok s => simp [excRepr, hmsg] at h1
+          | notStr => simp [excRepr, hmsg] at h1
+          | raised e1 o =>
+            simp [excRepr, hmsg] at h1
+            exact ⟨e1, by rw [h1]⟩
+        | ok a =>
+          cases hd : safeRepr r.dictRepr (lit "dict") with
+          | error ed =>
+            have : ed = e0 := by simpa [ha, hd, bind, Except.bind] using hm
+            subst this
+            obtain ⟨h1, h2⟩ := safeRepr_error _ _ _ hd
+            exact ⟨h2, Or.inr (Or.inr h1)⟩
+          | ok b => simp [ha, hd, bind, Except.bind, pure, Except.pure] at hm
+
+/-- when `getMessage()` raises an `Exception`, the entry carries the "Bad message" text instead of failing — also
+    when `repr(e)` or `repr(record.__dict__)` raise in turn (the placeholders of `_safe_repr` are used) -/
+theorem format_bad_message_caught (colorOn : Bool) (r : Record) (e : Exc) (o : Outcome)
+    (h : r.msg = .raised e o) (hb : r.benign = true) :
+    message r = .ok (badMessage (safeReprText o e.name) (safeReprText r.dictRepr (lit "dict")))
       ∧ ∃ s, format colorOn r = .ok s := by
-  refine ⟨by simp [message, h], ⟨_, rfl⟩⟩
+  refine ⟨?_, format_total colorOn r hb⟩
+  rw [message_benign r hb, h]
+
+/-- **The defect that was fixed** (`formatUnfixed` = /repo before the fix): the fallback itself raises when an
+    argument's `__repr__` raises, although every exception involved is an ordinary `Exception`. -/
+theorem formatUnfixed_raises_on_bad_repr (colorOn : Bool) (r : Record) (e e' : Exc) (a : Str)
+    (h : r.msg = .raised e (.ok a)) (he : e.isExc = true) (hd : r.dictRepr = .raised e') :
+    formatUnfixed colorOn r = .error e' := by
+  simp [formatUnfixed, messageUnfixed, getMessageChecked, h, tryExcept, he, excRepr, Outcome.call, hd,
+    bind, Except.bind]
+
+/-- … and a preset `bytes` `exc_text` raised `TypeError` at `.split("\n")` -/
+theorem formatUnfixed_raises_on_bytes_exc_text (colorOn : Bool) (r : Record) (m : Str) (b : List Nat)
+    (h : r.msg = .ok m) (hx : r.excText = .bytes b) (hb : b ≠ []) :
+    formatUnfixed colorOn r = .error typeError := by
+  have ht : (effExcText r).truthy = true ∧ effExcText r = .bytes b := by
+    unfold effExcText
+    cases r.excInfo <;> simp [hx, ExcText.truthy, hb]
+  simp only [formatUnfixed, messageUnfixed, getMessageChecked, h, tryExcept, ht.1, bind, Except.bind, if_true]
+  rw [ht.2]
+  rfl
+
+/-- so the totality statement was FALSE for the unfixed code -/
+theorem formatUnfixed_not_total :
+    ¬ ∀ (colorOn : Bool) (r : Record), r.benign = true → ∃ s, formatUnfixed colorOn r = .ok s := by
+  intro hall
+  let ve : Exc := ⟨lit "ValueError", true⟩
+  let r : Record := ⟨[73], 20, [49], [109], 7, .raised ⟨lit "TypeError", true⟩ (.ok (lit "TypeError()")),
+    .raised ve, none, .str []⟩
+  obtain ⟨s, hs⟩ := hall false r (by decide)
+  rw [formatUnfixed_raises_on_bad_repr false r _ ve _ rfl rfl rfl] at hs
+  cases hs
+
+/-- a `KeyboardInterrupt` raised by an argument's `__str__` propagates (by design of `except Exception`) -/
+theorem format_propagates_non_exception (colorOn : Bool) (r : Record) (e : Exc) (o : Outcome)
+    (h : r.msg = .raised e o) (he : e.isExc = false) : format colorOn r = .error e := by
+  simp [format, message, getMessageChecked, h, tryExcept, he, bind, Except.bind]
+
+-- non-vacuity of `format_total` / `format_bad_message_caught`: `"%d %s" % ("x", R())` where `R.__repr__` raises
+example :
+    (Record.benign ⟨[73], 20, [49], [109], 7, .raised ⟨lit "TypeError", true⟩ (.ok (lit "TypeError('x')")),
+      .raised ⟨lit "ValueError", true⟩, none, .str []⟩) = true
+    ∧ (format false ⟨[73], 20, [49], [109], 7, .raised ⟨lit "TypeError", true⟩ (.ok (lit "TypeError('x')")),
+      .raised ⟨lit "ValueError", true⟩, none, .str []⟩).toOption
+      = some (lit "[I 1 m:7] Bad message (TypeError('x')): <unprintable dict object>") := by
+  decide +kernel
 
 /-- **Indentation**, for ALL strings: after `replace("\n", "\n    ")` every newline is followed by four spaces. -/
 theorem newline_indented (s : Str) : indented (replaceNl s) = true := by
@@ -56,8 +223,7 @@ theorem newline_indented_pos (s : Str) : Indented (replaceNl s) :=
 
 theorem format_indented (colorOn : Bool) (r : Record) (s : Str) (h : format colorOn r = .ok s) :
     indented s = true := by
-  simp only [format, Except.ok.injEq] at h
-  subst h
+  obtain ⟨m, _, rfl⟩ := (format_ok_iff colorOn r s).1 h
   exact newline_indented _
 
 /-- in every formatted entry, each `\n` is followed by four spaces — wherever it came from (message text,
@@ -121,10 +287,9 @@ theorem unindent_replaceNl (s : Str) : unindent (replaceNl s) = s := by
       simp [hc, ih]
 
 theorem format_lossless (colorOn : Bool) (r : Record) (s : Str) (h : format colorOn r = .ok s) :
-    unindent s = assembled colorOn r := by
-  simp only [format, Except.ok.injEq] at h
-  subst h
-  exact unindent_replaceNl _
+    ∃ m, message r = .ok m ∧ unindent s = assembled colorOn r m := by
+  obtain ⟨m, hm, rfl⟩ := (format_ok_iff colorOn r s).1 h
+  exact ⟨m, hm, unindent_replaceNl _⟩
 
 /-- the header contains no newline when the level name, the time stamp and the module name contain none -/
 theorem header_has_no_newline (colorOn : Bool) (r : Record)
@@ -175,31 +340,34 @@ theorem joinNl_cons_prefix (x : Str) (rest : List Str) : ∃ t, joinNl (x :: res
 theorem first_line_is_header (colorOn : Bool) (r : Record) (s : Str)
     (h1 : cLf ∉ level1 r.levelname) (h2 : cLf ∉ r.asctime) (h3 : cLf ∉ r.module)
     (h : format colorOn r = .ok s) : (header colorOn r).dropLast <+: s := by
-  simp only [format, Except.ok.injEq] at h
-  subst h
+  obtain ⟨m, _, rfl⟩ := (format_ok_iff colorOn r s).1 h
   have hnl := header_has_no_newline colorOn r h1 h2 h3
   rw [header_eq_core] at hnl ⊢
   have hcore : cLf ∉ headerCore colorOn r := fun hm => hnl (by simp [hm])
   rw [List.dropLast_concat]
   -- the assembled string is the core followed by something
-  have : ∃ t, assembled colorOn r = headerCore colorOn r ++ t := by
-    unfold assembled
+  have : ∃ t, assembled colorOn r m = headerCore colorOn r ++ t := by
+    unfold assembled assembleWith
     simp only [header_eq_core]
     split
-    · exact ⟨[cSp] ++ message r, by simp⟩
-    · obtain ⟨pre, z, hz, hsp⟩ := headerCore_ends_nonspace colorOn r
-      have e : headerCore colorOn r ++ [cSp] ++ message r = pre ++ z :: (cSp :: message r) := by
+    · rename_i heq
+      split at heq
+      · cases heq
+      · exact ⟨[cSp] ++ m, by simp⟩
+    · rename_i ls heq
+      obtain ⟨pre, z, hz, hsp⟩ := headerCore_ends_nonspace colorOn r
+      have e : headerCore colorOn r ++ [cSp] ++ m = pre ++ z :: (cSp :: m) := by
         rw [hz]; simp
       rw [e, rstrip_append_stop pre z _ hsp]
-      obtain ⟨t, ht⟩ := joinNl_cons_prefix (pre ++ z :: rstrip (cSp :: message r)) (splitNl (effExcText r))
-      exact ⟨rstrip (cSp :: message r) ++ t, by rw [ht, hz]; simp⟩
+      obtain ⟨t, ht⟩ := joinNl_cons_prefix (pre ++ z :: rstrip (cSp :: m)) ls
+      exact ⟨rstrip (cSp :: m) ++ t, by rw [ht, hz]; simp⟩
   obtain ⟨t, ht⟩ := this
   rw [ht, replaceNl_append_of_no_lf _ _ hcore]
   exact List.prefix_append _ _
 
 -- non-vacuity: a record whose message tries to forge an entry
 example :
-    (format false ⟨[73], 20, [49], [109], 7, .ok [97, 10, 91, 69], [], none, []⟩).toOption
+    (format false ⟨[73], 20, [49], [109], 7, .ok [97, 10, 91, 69], .ok [], none, .str []⟩).toOption
       = some [91, 73, 32, 49, 32, 109, 58, 55, 93, 32, 97, 10, 32, 32, 32, 32, 91, 69] := by decide +kernel
 
 end TornadoModel.C45
